@@ -172,7 +172,7 @@ def check(run):
     # programs that write several keys next to events and transfers (whose records share the write set with the contract's own
     # writes), and the tamperings of the write / read LIST: a record repeated in place of another one, appended, swapped
     lists = {"MaxSteps": 5, "StepOps": '{"get", "put", "del", "xfer", "emit"}',
-             "TamperKinds": '{"none", "write_dup", "write_swap", "write_app", "read_dup", "write_drop", "write_val", "ev_drop", "ctr_alter", "cout_drop", "cout_less", "cout_freeze"}'}
+             "TamperKinds": '{"none", "write_dup", "write_swap", "write_app", "write_rep", "read_dup", "write_drop", "write_val", "ev_drop", "ctr_alter", "cout_drop", "cout_less", "cout_freeze"}'}
     if quick:
         plans = [(2400, full), (600, short), (600, rich), (900, lists)]
         mcs = [("MC_Contract.cfg", 600), ("MC_Contract_arg.cfg", 300)]
@@ -247,6 +247,7 @@ def check(run):
         # committed write sets in which an event / contract utxo record precedes a write of the contract (offsets shifted)
         "commits_with_write_after_transient": (tot.get("admit_write_after_transient", 0), 40),
         "control_write_swap": (tot.get("tk_write_swap_admit", 0) + tot.get("tk_write_swap_reject", 0), 5),
+        "control_write_repeated": (tot.get("tk_write_rep_admit", 0) + tot.get("tk_write_rep_reject", 0), 5),
         "control_read_dup_same_version": (tot.get("tk_read_dup_admit", 0), 5),
     }
     for tk in MUST_REJECT:
